@@ -247,7 +247,7 @@ def check(model, R, tier):
                     'who may write the registries, ordering and identity de-duplication of parameters(), counters of num_params, recursion and constants of train()/eval(), loops of zero_grad/freeze/unfreeze, '
                     'base-class discipline of all %d Module subclasses, Sequential registration order / composition / definite assignment. Dynamic registration by user code through object.__setattr__ is outside the package.' % len(subs),
         assumptions=['OrderedDict / dict preserve insertion order', 'user subclasses follow the same discipline as the package\'s own'],
-        technique='effect analysis of branches + who-may-write + CFG dominance + definite-assignment dataflow')
+        technique='registry effects on partially evaluated paths + who-may-write + CFG dominance + definite-assignment dataflow')
 
 
 def check_parameters(model, R, pf):
